@@ -552,6 +552,20 @@ def f33():
     return (not bad) or bool(sim.has_crashed), f"accepted; NaN recorded: {bad}"
 
 
+@trigger("F34", ["C15", "C07"])
+def f34():
+    """a capital vector with categorical index levels (categories in order of first appearance) is matched by label"""
+    tb = base_table()
+    regs, secs, cats = scen.labels(tb)
+    N = len(regs) * len(secs)
+    vals = [float(1000 * (i + 1)) for i in range(N)]
+    cfg_a = base_cfg(capital={"kind": "series", "values": vals})
+    cfg_b = base_cfg(capital={"kind": "series", "values": vals, "categorical": True})
+    ka = np.asarray(scen.build_model(tb, cfg_a).productive_capital, dtype=float).ravel()
+    kb = np.asarray(scen.build_model(tb, cfg_b).productive_capital, dtype=float).ravel()
+    return bool(np.array_equal(ka, kb)), f"capital held: {ka[:3].tolist()} (plain index) / {kb[:3].tolist()} (categorical index)"
+
+
 def run_all(props=None, only=None):
     res = {}
     for fid, t in TRIGGERS.items():
